@@ -3,7 +3,7 @@
 
 def _c05_nontrivial(cf):
     # a table row (one per distinct input) or a random history; the audit line does not count
-    return cf[2] in ("row", "hist") and cf[6] != "-"
+    return cf[2] in ("row", "hist", "pipe") and cf[6] != "-"
 
 
 CONFIG = dict(
@@ -16,7 +16,9 @@ CONFIG = dict(
          "Unauthenticate} x {STARTTLS configured} x every reachable (state, TLS active) x 41 command kinds (every name of the "
          "readCommand switch, UID forms separately, unknown, UID unknown, 3 extra AUTHENTICATE shapes) x {malformed, ok, "
          "principal session method fails, auxiliary method fails, Poll fails}; each distinct server input once (outcomes that arm "
-         "no failure coincide with ok: Props/C05 step_same_input); two further capability sets with succeeding backends for the ten kinds that show or change the capability list. Each row "
+         "no failure coincide with ok: Props/C05 step_same_input); two further capability sets with succeeding backends for the ten kinds that show or change the capability list. Plus, for every state, "
+         "LOGOUT / unknown / UID unknown followed IN THE SAME WRITE by two marker commands (LOGIN, NOOP): after a command that ends "
+         "the connection nothing that was already buffered may be processed. Each row "
          "is a fresh connection driven into the state by the shortest history. Plus random histories of length <= 30 (quick 300, "
          "thorough 100000). Non-trivial = row or history with at least one command; distinct = different case line",
     nontrivial=_c05_nontrivial,
@@ -36,8 +38,9 @@ CONFIG = dict(
                "prescribes (transitions, transitions_fun; failed SELECT deselects, LOGOUT is final, unknown command before "
                "authentication closes), and AUTH=PLAIN/LOGINDISABLED/STARTTLS are advertised exactly when they apply "
                "(caps_advert). The mirror's finite step table is tied to the real server EXHAUSTIVELY on every run, and the "
-               "RFC-side oracle (Permitted, rfcStep, capability rules, BYE/close, Close exactly once) judges every recorded call "
-               "and state of the implementation",
+               "RFC-side oracle (Permitted, rfcStep, capability rules, BYE/close, nothing processed after termination incl. pipelined "
+               "commands, no selected-state call reaching a backend whose own Select/Unselect bookkeeping says no mailbox, Close "
+               "exactly once) judges every recorded call and state of the implementation",
     level_note="Trusted: Lean kernel; harness/driver; crypto/tls. One-step facts are proved by kernel evaluation of the whole "
                "table (decide +kernel, one theorem per command kind) and lifted by induction over histories. Response classes "
                "(NO vs BAD) are compared with the model but are not part of the oracle.",
